@@ -20,15 +20,31 @@ the code has two halves, both run here:
     after connecting / leave the write side open / read slowly.  Every response must equal the serial reference byte
     for byte (Date-Unix-Epoch-Nanos masked, form-echo body lines sorted), and no response - the reference included -
     may contain a client token of another request.
+    Second generator audit (vlib/gen_c08.py `feature_requests`, props/c08_features.py): the RELATIONS that features a maintainer adds go
+    wrong on.  In the multiset: headers the server ignores today (persistent connections, conditional requests, encodings, 100 Continue,
+    bodies framed by chunks / Content-Length, proxy / session / upgrade headers, every header name the source mentions), one per request
+    and in pairs; a header and the bytes after the head; files and their NEIGHBOURS (side files .gz/.br newer, older, of other content,
+    larger than the file, without the file), AGES (validators exactly at, one second / nanosecond around a file's age, the validator of one
+    file presented for another) and SIZES (whole pieces); what the server HANDS OUT in its answers (validators, cookies) coming back on
+    the same and on another target.  In the schedule: rounds of feature requests whose clients keep the write side open; clients that
+    reset the connection; 320 connections at once; the process stopped while 64 connections queue up, then continued; an instance whose
+    FIRST traffic is concurrent (no start-up probe) and a file nobody asked for on 48 connections at once; a stalling client that arrives
+    while all workers are busy, connections queued before and behind it, requests for the file the stalling client is being sent.  Other
+    observation points: the SECOND answer on a connection; the served directory itself (what the server wrote there is asked for on that
+    instance and on a fresh one); an instance that has served the OLD state of files that then change (grown, shrunk, replaced, deleted,
+    created, link re-pointed, index / side file / not-found page appearing and disappearing) against a fresh instance.
 """
 import os, sys, re, time, shutil, tempfile, hashlib
 from vlib import common as C
 from vlib import realbin as R
 from vlib import gen_c08 as G
+from vlib import reqgen as RQ
+from props import c08_features as F
 
-sys.path.insert(0, os.path.join(C.VERIF, 'translator'))
-sys.path.insert(0, os.path.join(C.VERIF, 'translator', 'gens'))
-import inventory as INV
+# loaded by path: putting translator/gens on sys.path would shadow the standard modules `base64` and `http` with the translators of the same name
+import importlib.util as _ilu
+_spec = _ilu.spec_from_file_location('rws_translator_inventory', os.path.join(C.VERIF, 'translator', 'gens', 'inventory.py'))
+INV = _ilu.module_from_spec(_spec); _spec.loader.exec_module(INV)
 
 DRIVERS = ['Common']   # model driver files this check runs: scopes translator failures to the tables they (and the proofs) import
 TRUSTED = ['the proof is about a model with no shared mutable state (Rws.Concurrent); that the code has none is checked '
@@ -36,14 +52,20 @@ TRUSTED = ['the proof is about a model with no shared mutable state (Rws.Concurr
            '(serial vs concurrent responses of the real binary); a data race needing a rare interleaving can escape',
            'translator/gens/inventory.py: a syntactic scan (module tree from main.rs, comments/strings blanked, #[cfg(test)] and '
            '#[cfg(rws_verif)] items removed, name-based call graph); state hidden in dependencies or built by macros is not seen',
-           'vlib/realbin.py: loopback client, one connection per request, whole request sent in one piece']
+           'vlib/realbin.py: loopback client, one connection per request, whole request sent in one piece',
+           'props/c08_features.py: SIGSTOP / SIGCONT of the server process to let connections queue up (the process itself is not otherwise touched); '
+           '/proc/net/tcp to learn that an instance listens without connecting to it']
 ASSUMPTIONS = ['`respond` of the model is abstract: what the response IS belongs to the other properties; C08 only says it is a function of (request, tree, configuration)',
                'the real scheduler is sampled (1, 2, 4, 16 workers; barrier start; shuffled order; random small delays; bursts of one family; silent / half-open / slow connections), not enumerated',
                'the response a request receives ALONE is taken from the first serial pass on a fresh instance (generation order), not from one fresh process per request',
                'the Date-Unix-Epoch-Nanos value and the line order of form-echo bodies are excluded from the comparison (property text)',
-               'the files on disk do not change during the run (the check itself only reads them)']
+               'the files of the served directories do not change while requests are in flight; the churn probe changes the files of a directory of its own BETWEEN two answers '
+               'and expects the instance that served the old state to answer like a fresh instance (the response depends on the files on disk, not on what they were)',
+               'a request that gets no answer within 3 s while ONE other client does not read its own answer counts as influenced by that client (alone it is answered in milliseconds)',
+               'races that need two workers within the same microseconds (first-use set-up) are sampled: a few fresh instances per run whose first traffic is a queue of waiting connections']
 
 WORKERS = [1, 2, 4, 16]
+FEAT_QUICK = 230       # places of the quick tier for the request families of the second audit pass (the thorough tier runs them all)
 TS = re.compile(rb'(Date-Unix-Epoch-Nanos: )(\d+)')
 
 # ----------------------------------------------------------------------------- canonical form of a response
@@ -250,12 +272,14 @@ def check_tokens(res, pr, r, got, N, phase):
         return False
     return True
 
-def exercise(res, pr, rng, docroot, reqs, reference, N, quota, label='', env=None, rounds_override=None):
+def exercise(res, pr, rng, docroot, reqs, reference, N, quota, label='', env=None, rounds_override=None, tree=None, tree_key='a'):
     """one fresh instance with N workers: serial passes in three orders, then concurrent rounds of several shapes.
     Returns the number of concurrent requests compared."""
     done = 0
     fam = families(reqs)
     fam_keys = list(fam)
+    feat_idx = [i for i, r in enumerate(reqs) if r['kind'].startswith('feat-') or r['kind'] == 'cors-credentials']
+    skip = set()
     with R.Server(docroot, threads=N, capture_stdout=False, env=env) as srv:
         # serial passes in different orders: the answer may not depend on what was served before.  The pass in
         # another order than the reference's runs FIRST on this fresh instance: what the first request of a class
@@ -289,8 +313,10 @@ def exercise(res, pr, rng, docroot, reqs, reference, N, quota, label='', env=Non
         while quota > 0 and srv.alive():
             rnd += 1
             # every instance sees every shape: a mixed round, bursts of one family, related pairs, a mixed round with connection kinds …
-            shape = ['mix', 'big', 'same', 'burst', 'pair', 'kinds', 'same', 'burst', 'pair', 'burst'][(rnd - 1) % 10] if (pr.tier == 'quick' or rnd <= 10) else \
-                    rng.choice(['mix', 'mix', 'kinds', 'kinds', 'burst', 'burst', 'pair', 'big', 'same'])
+            shape = ['mix', 'big', 'same', 'feature', 'flood', 'pair', 'thaw', 'kinds', 'same', 'burst', 'pair', 'burst'][(rnd - 1) % 12] if (pr.tier == 'quick' or rnd <= 12) else \
+                    rng.choice(['mix', 'mix', 'kinds', 'kinds', 'burst', 'burst', 'pair', 'big', 'same', 'feature', 'thaw'])
+            if shape == 'feature' and not feat_idx: shape = 'burst'
+            if shape == 'flood' and pr.tier == 'quick' and N not in (WORKERS[0], WORKERS[-1]): shape = 'pair'
             if shape in ('big', 'same') and N == 1: shape = 'burst'          # one worker never has two answers under way
             conns = rng.choice([2, 4, 8, 16, 32, 64])
             delay = 0
@@ -322,6 +348,33 @@ def exercise(res, pr, rng, docroot, reqs, reference, N, quota, label='', env=Non
                 m = 48 if pr.tier == 'quick' else 96
                 idx = [one] * m
                 conns = m
+            elif shape == 'feature':
+                # requests with the headers of features the server does not have today (persistent connections, conditional requests, encodings,
+                # 100 Continue, bodies framed otherwise, proxy / session / upgrade headers): each on a connection whose write side stays OPEN -
+                # the client of such a feature waits for the answer before it goes on - and most of them on a plain connection as well
+                pick = [i for i in feat_idx if reqs[i].get('must')]
+                rng.shuffle(pick)
+                rest = [i for i in feat_idx if not reqs[i].get('must')]
+                rng.shuffle(rest)
+                pick = (pick[:24] + rest)[:40 if pr.tier == 'quick' else 120]
+                idx = pick + pick[::2]
+                m = len(idx)
+                conns = rng.choice([16, 32, 48])
+            elif shape == 'thaw':
+                # the greatest overlap a client can arrange: the server process is stopped, 64 connections are opened and their requests sent,
+                # the process continues and finds them all waiting (F.frozen_round): related requests next to one another in the queue
+                g = fam[rng.choice([k for k in fam_keys if k.startswith('group:')] or fam_keys)]
+                idx = [rng.choice(g) for _ in range(24)] + [rng.below(len(reqs)) for _ in range(40)]
+                idx = [i for i in idx if len(expected[i]) < 300000]
+                m = len(idx)
+                conns = m
+            elif shape == 'flood':
+                # far more connections at once than workers, than the listen queue of most servers, than any limit a maintainer would pick
+                # first (100, 128, 256): short requests of every kind, every connection opened at the same moment
+                short = [i for i in range(len(reqs)) if len(expected[i]) < 20000]
+                m = 320 if pr.tier == 'quick' else 700
+                idx = [rng.choice(short) for _ in range(m)]
+                conns = m
             elif shape == 'burst':
                 # many requests of ONE family at once (form posts only, ranges of one file only, preflights only, errors only …):
                 # a race in something only that family uses needs two of them in the same microseconds
@@ -336,7 +389,11 @@ def exercise(res, pr, rng, docroot, reqs, reference, N, quota, label='', env=Non
                 m = min(max(quota, 8), 32 if pr.tier == 'quick' else 48)
                 idx = [pick[j % len(pick)] for j in range(m)]
                 conns = rng.choice([8, 32, 48])
-            if shape == 'mix':
+            if shape == 'flood':
+                got = R.run_concurrent(srv, [reqs[i]['raw'] for i in idx], conns=conns, timeout=30)
+            elif shape == 'thaw':
+                got = F.frozen_round(srv, [reqs[i]['raw'] for i in idx])
+            elif shape == 'mix':
                 delay = rng.choice([0, 0, 1, 3])
                 got = R.run_concurrent(srv, [reqs[i]['raw'] for i in idx], conns=conns, rng=rng.fork(f'd{N}-{rnd}'), max_delay_ms=delay, timeout=20)
             else:
@@ -347,15 +404,24 @@ def exercise(res, pr, rng, docroot, reqs, reference, N, quota, label='', env=Non
                 jobs = [dict(raw=reqs[i]['raw'], **G.conn_kind(jr, reqs[i]['raw'], len(expected[i]), holds)) for i in idx]
                 if shape == 'same':
                     for j in jobs: j['conn'] = 'plain'
+                if shape == 'feature':
+                    for k, j in enumerate(jobs): j['conn'] = 'nohalf' if (k < len(pick) and j['raw']) else 'plain'
+                if shape in ('big', 'kinds'):
+                    # clients that go away: they reset the connection right after sending, or after the first piece of a large answer (the
+                    # server's write fails half way).  Their own answers are not judged; everybody else's are
+                    for k, j in enumerate(jobs):
+                        if j['conn'] == 'plain' and k % 7 == 3: j.update(conn='abort', first=len(expected[idx[k]]) > 60000 and k % 2 == 1)
                 if shape == 'big':
                     for k, j in enumerate(jobs):
                         if len(expected[idx[k]]) > 60000 and j['conn'] == 'plain' and k % 2 == 0: j['conn'] = 'slow'
                 for j in jobs: res.count('connection ' + j['conn'])
                 got = G.run_jobs(srv, jobs, conns=conns, timeout=20)
+                skip = {k for k, j in enumerate(jobs) if j['conn'] == 'abort'}
             res.count('round ' + shape)
-            quota -= (0 if shape == 'same' else m); done += m     # the rounds of one request do not use up the budget of the others
+            quota -= (0 if shape in ('same', 'flood') else m); done += m     # the rounds of one request do not use up the budget of the others
             res.count(f'workers={N}{label}', m)
-            for i, g in zip(idx, got):
+            for k_, (i, g) in enumerate(zip(idx, got)):
+                if shape not in ('mix', 'flood', 'thaw') and k_ in skip: continue
                 r = reqs[i]
                 res.evaluations += 1; res.programs += 1
                 res.count('kind ' + r['kind'])
@@ -374,6 +440,10 @@ def exercise(res, pr, rng, docroot, reqs, reference, N, quota, label='', env=Non
                              f'with {conns} simultaneous connections on {N} workers{label} (round of shape {shape}) the response differs from the response to the same request served alone. '
                              + who_else(c, expected, reqs, i))
             if len(res.failures) > 50: break
+        if srv.alive() and len(res.failures) <= 50:
+            # the second answer on a connection; files next to the served ones
+            F.persistent(res, pr, rng.fork(f'p{N}{label}'), srv, reqs, expected, N, label)
+            if tree is not None: tree[tree_key] = F.tree_changes(res, pr, srv, docroot, tree[tree_key], N, label, env)
         alive = srv.alive()
     if not alive:
         res.fail('server-terminated', dict(phase='concurrent', workers=N, status=srv.status), (srv.stderr() or '')[-600:], None,
@@ -392,19 +462,89 @@ def stalled_reader(res, pr, rng, srv, reqs, expected, N, label):
     big = len(reqs) - 1
     small = [i for i in range(len(reqs)) if 0 < len(expected[i]) < 20000 and b' 200 ' in expected[i][:20]]
     if not small: return
+    # requests for the SAME file as the stalling client's (whatever a worker holds on to while it writes - a lock on the file, an entry of a
+    # cache that is being filled - is in the way of exactly these): a few bytes of it, its head, two parts, all of it
+    same_file = []
+    for m_, hs in [('GET', [('Range', 'bytes=0-99')]), ('HEAD', []), ('GET', [('Range', 'bytes=0-9,6000000-')]), ('GET', [('Accept-Encoding', 'gzip')])]:
+        raw_ = req(m_, '/stall.bin', [('Host', 'x')] + hs)
+        try: al = srv.request(raw_, timeout=20)
+        except Exception: continue      # noqa
+        if al:
+            reqs = reqs + [dict(raw=raw_, form=False, kind='same-file-as-the-stalling-client')]; expected = expected + [canon(al, False)]; same_file.append(len(reqs) - 1)
     hold, limit = 4.0, 3.0
     a = socket.socket(socket.AF_INET, socket.SOCK_STREAM)
     got_a = None
+    import threading
+    stalled_txt = reqs[big]['raw'][:120].decode('latin1')
+    def judge(r, i, g, phase, extra):
+        """g: the answer (or the exception) to request i sent while the stalling client does not read; False = stop"""
+        res.evaluations += 1; res.count('stalled reader: ' + phase)
+        if g is None or isinstance(g, Exception) or not g:
+            res.fail('no-response-while-another-client-stalls', pr.case(r, N, dict(stalled=stalled_txt, error=repr(g), phase=phase)), repr(g), C.hx(expected[i][:2000]),
+                     f'{N} workers{label}: {extra} ONE client does not read its {len(expected[big])}-byte answer (for {hold} s); this request got no answer within {limit} s; alone it is answered at once')
+            return False
+        if canon(g, r['form']) != expected[i]:
+            res.fail('cross-talk', pr.case(r, N, dict(shape='stalled reader, ' + phase)), C.hx(canon(g, r['form'])[:6000]), C.hx(expected[i][:6000]),
+                     f'{N} workers{label}: while one client does not read its answer the response differs from the response to the same request served alone')
+            return False
+        return True
+    silent, blockers, queued = [], [], []
     try:
         a.setsockopt(socket.SOL_SOCKET, socket.SO_RCVBUF, 4096)
         a.settimeout(20)
-        a.connect(('127.0.0.1', srv.port))
-        a.sendall(reqs[big]['raw'])
-        try: a.shutdown(socket.SHUT_WR)
-        except OSError: pass
+        # ---- 1. the stalling client arrives while ALL workers are busy: its connection waits in the queue, other connections before and
+        # behind it.  (N clients that connect and stay silent hold the N workers in read; the queue fills; then the silent clients go.)
+        # Whoever hands a worker more than one waiting connection at a time makes the ones behind the stalling client wait for it
+        for _ in range(N):
+            try: blockers.append(socket.create_connection(('127.0.0.1', srv.port), timeout=5))
+            except OSError: pass
+        time.sleep(0.05 + 0.003 * N)
+        order = [rng.choice(small) for _ in range(12)]
+        at = rng.range(1, 3)
+        for k, i in enumerate(order[:at] + [big] + order[at:]):
+            s_ = a if i == big else socket.socket(socket.AF_INET, socket.SOCK_STREAM)
+            try:
+                s_.settimeout(20)
+                s_.connect(('127.0.0.1', srv.port))
+                s_.sendall(reqs[i]['raw'])
+                try: s_.shutdown(socket.SHUT_WR)
+                except OSError: pass
+            except OSError as e:
+                if i == big: raise
+                s_.close(); continue
+            if i != big: queued.append((i, s_))
+        for b_ in blockers:
+            try: b_.close()
+            except OSError: pass
         t0 = time.time()
-        time.sleep(0.3)
-        for i in [rng.choice(small) for _ in range(3)]:
+        ok = True
+        for i, s_ in queued:
+            g = b''
+            try:
+                while True:
+                    s_.settimeout(max(0.05, t0 + limit - time.time()))
+                    piece = s_.recv(1 << 16)
+                    if not piece: break
+                    g += piece
+            except ConnectionResetError:
+                pass
+            except Exception as e:      # noqa
+                g = e
+            finally:
+                s_.close()
+            if ok: ok = judge(reqs[i], i, g, 'request queued next to the stalling one while all workers were busy', 'queued together with the request of a stalling client while all workers were busy:')
+        # ---- 2. a burst of short requests at the same moment; where workers are left, clients that connect and stay silent (workers in read)
+        for _ in range(max(0, min(8, N - 4))):
+            try: silent.append(socket.create_connection(('127.0.0.1', srv.port), timeout=5))
+            except OSError: pass
+        burst = [rng.choice(small) for _ in range(12)]
+        raws = [reqs[i]['raw'] for i in burst]
+        if ok and time.time() - t0 < hold - limit - 0.2:
+            got = R.run_concurrent(srv, raws, conns=len(raws), timeout=limit)
+            for i, g in zip(burst, got):
+                if not judge(reqs[i], i, g, 'request sent in a burst meanwhile', f'({len(silent)} more clients connected and stay silent)'): ok = False; break
+        time.sleep(max(0.0, 0.3 - (time.time() - t0)))
+        for i in same_file + [rng.choice(small) for _ in range(3)]:
             r = reqs[i]
             res.evaluations += 1; res.count('stalled reader: request served meanwhile')
             try: g = srv.request(r['raw'], timeout=limit)
@@ -429,6 +569,9 @@ def stalled_reader(res, pr, rng, srv, reqs, expected, N, label):
         got_a = e
     finally:
         a.close()
+        for s_ in silent + blockers + [q[1] for q in queued]:
+            try: s_.close()
+            except OSError: pass
     res.evaluations += 1
     if isinstance(got_a, Exception) or canon(got_a, reqs[big]['form']) != expected[big]:
         res.fail('no-response-under-concurrency' if isinstance(got_a, Exception) else 'cross-talk', pr.case(reqs[big], N, dict(shape='stalled reader, the stalled client itself')),
@@ -551,12 +694,25 @@ def run_probe(res, tier, seed, only_workers=None, rounds_override=None, log=None
     try:
         files = R.write_docroot(docroot, rng.fork('tree'), n_files=40 if tier == 'quick' else 120)
         info = G.extend_docroot(docroot, files, rng.fork('tree+'), tier)
+        info2 = G.extend_docroot2(docroot, files, rng.fork('tree2'), tier)      # neighbours (side files), ages, whole-piece sizes, cold files
         n_req = 40 if tier == 'quick' else 400
         reqs = gen_requests(rng.fork('reqs'), files, n_req)
         have = {r['raw'] for r in reqs}
         extra = [r for r in G.extra_requests(rng.fork('reqs+'), files, info, tier) if r['raw'] not in have]
         if tier == 'quick': extra = thin(rng.fork('thin'), extra, 300)
         reqs += extra
+        # second audit pass: what the server hands out (validators, cookies …) comes back in requests; headers the server ignores today
+        have = {r['raw'] for r in reqs}
+        try:
+            with R.Server(docroot, threads=2, capture_stdout=False) as s_pre: handed = G.handed_out(s_pre)
+        except Exception as e:      # noqa
+            handed = {}; res.notes.append('prestage (handed-out headers) failed: %r' % (e,))
+        feat = [r for r in G.feature_requests(rng.fork('feat'), files, info, info2, tier, handed, RQ.vocab_headers()) if r['raw'] not in have]
+        res.extra['feature_requests_generated'] = len(feat)
+        if tier == 'quick': feat = thin(rng.fork('thin-f'), feat, FEAT_QUICK, per_cell=1)
+        reqs += feat
+        cold = list(info2['cold'])
+        tree = dict(a=F.snapshot(docroot))
         total_target = 1600 if tier == 'quick' else 100000
         workers = list(WORKERS) + ([] if tier == 'quick' else [3, 8, 12])
         per_worker = total_target // len(workers)
@@ -570,8 +726,17 @@ def run_probe(res, tier, seed, only_workers=None, rounds_override=None, log=None
         done = 0
         for N in (only_workers or workers):
             quota = per_worker if rounds_override is None else rounds_override * len(reqs)
-            done += exercise(res, pr, rng, docroot, reqs, reference, N, quota)
+            done += exercise(res, pr, rng, docroot, reqs, reference, N, quota, tree=tree)
             if len(res.failures) > 50: break
+        # an instance whose FIRST traffic is concurrent; then a large file nobody has asked for, on 48 connections at once
+        if only_workers is None and len(res.failures) <= 50:
+            for j, N in enumerate([2, 16] if tier == 'quick' else [2, 2, 3, 4, 8, 16, 16, 16]):
+                done += F.cold_start(res, pr, rng.fork('cold%d' % j), docroot, reqs, reference, N, cold.pop() if (cold and j % 2 == 0) else None, tree=tree)
+                if len(res.failures) > 50: break
+        # the files change between two answers (a directory of its own)
+        if only_workers is None and len(res.failures) <= 50:
+            for N in ([rng.choice([1, 2, 4])] if tier == 'quick' else [1, 2, 4, 16]):
+                F.churn(res, pr, rng.fork('churn%d' % N), N)
 
         # ---- the other configuration: a configured CORS list instead of allow-all (the per-request reads of the process
         # environment take the other branch), and a served directory WITHOUT index.html / 404.html / style.css / script.js /
@@ -583,19 +748,24 @@ def run_probe(res, tier, seed, only_workers=None, rounds_override=None, log=None
                 try: os.remove(os.path.join(docroot_b, pg))
                 except OSError: pass
             sel = [r for r in reqs if r['kind'] in ('preflight', 'cors-simple', 'cors-related-origin', 'options', 'options-same-origin', 'origin-variant', 'method-variant',
-                                                    'get-builtin-or-dir', 'error-path', 'long-origin', 'long-request-headers', 'header-repeated', 'not-found')
+                                                    'get-builtin-or-dir', 'error-path', 'long-origin', 'long-request-headers', 'header-repeated', 'not-found',
+                                                    'cors-credentials', 'feat-host', 'feat-conn', 'feat-pair', 'feat-plain', 'short-form-post')
                    or (r['kind'] == 'lookup-step' and any(r['raw'].startswith(b'GET /' + pg.encode()) for pg in G.PAGES))]
             rest = [r for r in reqs if r not in sel]
             rng.shuffle(rest)
             sel += rest[:60 if tier == 'quick' else 400]
-            if tier == 'quick': sel = thin(rng.fork('thin-b'), sel, 160)
+            if tier == 'quick': sel = thin(rng.fork('thin-b'), sel, 190)
             label = ' (configured CORS list, built-in pages)'
+            tree['b'] = F.snapshot(docroot_b)
             sel, ref_b = qualify(res, pr, docroot_b, sel, {}, env=RESTRICTED, label=label)
             if sel is not None:
                 nb = rng.choice([3, 5, 8])
+                for j, N in enumerate([2, 2, 2, 4, 16] if tier == 'quick' else [2, 2, 2, 3, 4, 4, 8, 16, 16, 16, 16, 16]):
+                    done += F.cold_start(res, pr, rng.fork('cold-b%d' % j), docroot_b, sel, ref_b, N, cold.pop() if (cold and j == 0) else None, label=label, env=RESTRICTED, tree=tree, tree_key='b')
+                    if len(res.failures) > 50: break
                 alone_probes(res, pr, rng.fork('alone-b'), docroot_b, sel, ref_b, 8 if tier == 'quick' else 100, label=label, env=RESTRICTED)
                 fresh_passes(res, pr, rng, docroot_b, sel, ref_b, rng.choice([1, 2, 16]), 2 if tier == 'quick' else 6, label=label, env=RESTRICTED)
-                done += exercise(res, pr, rng, docroot_b, sel, ref_b, nb, 250 if tier == 'quick' else 20000, label=label, env=RESTRICTED)
+                done += exercise(res, pr, rng, docroot_b, sel, ref_b, nb, 250 if tier == 'quick' else 20000, label=label, env=RESTRICTED, tree=tree, tree_key='b')
         res.extra['probe']['concurrent_requests_compared'] = done
         res.extra['probe']['probe_wall_s'] = round(time.time() - pr.t_start, 1)
         if reqs:
@@ -608,7 +778,7 @@ def run_probe(res, tier, seed, only_workers=None, rounds_override=None, log=None
         shutil.rmtree(docroot, ignore_errors=True)
         shutil.rmtree(docroot_b, ignore_errors=True)
 
-def thin(rng, reqs, cap):
+def thin(rng, reqs, cap, per_cell=2):
     """the quick tier keeps every KIND and every GROUP (two members of every kind x group at least, and what is marked `must`); which
     members, and which others up to `cap`, is drawn from the seed - the free places go to the kinds by size (less than proportionally)"""
     if len(reqs) <= cap: return reqs
@@ -619,7 +789,7 @@ def thin(rng, reqs, cap):
     pools, taken = {}, {}
     for k in sorted(by, key=str):
         g = by[k][:]; rng.shuffle(g)
-        first = set(g[:2]) | {i for i in g if reqs[i].get('must')}
+        first = set(g[:per_cell]) | {i for i in g if reqs[i].get('must')}
         keep.update(first)
         pools.setdefault(k[0], []).extend(i for i in g if i not in first)
         taken[k[0]] = taken.get(k[0], 0) + len(first)
@@ -674,7 +844,10 @@ def replay(rp):
     res = C.Result('C08')
     seed = int(os.environ.get('VERIF_SEED', '1') or '1')
     w = case.get('workers') if isinstance(case, dict) else None
-    run_probe(res, 'quick', seed, only_workers=[w] if w in WORKERS else None, rounds_override=6)
+    # cases of the probes that run on instances of their own (cold start, churn, the second configuration) need the whole probe
+    whole = isinstance(case, dict) and (case.get('kind') in ('churn', 'cold-file', 'file-written-by-the-server') or case.get('shape') in ('cold start', 'cold file')
+                                        or str(case.get('phase', '')).startswith(('after the files', 'a file the server')) or 'configured' in str(case.get('instance', '')))
+    run_probe(res, 'quick', seed, only_workers=[w] if (w in WORKERS and not whole) else None, rounds_override=6 if not whole else None)
     sigs = sorted({f['sig'] for f in res.failures})
     print('oracle        :', rp.get('oracle'))
     print('reproduced    :', sigs or 'no failure in this re-run (a schedule-dependent failure may need several runs)')
